@@ -136,11 +136,12 @@ class C20(Check):
         ref = None
         for perm in itertools.permutations(range(len(names))):
             ctx.evaluations += 1
-            asm = Assembly("t", scaffolds=[Scaffold(names[i], rank=ranks[i]) for i in perm])
+            # rank "D": the scaffold is created without a rank argument (the class default)
+            asm = Assembly("t", scaffolds=[Scaffold(names[i]) if ranks[i] == "D" else Scaffold(names[i], rank=ranks[i]) for i in perm])
             try:
                 by_name = [s.name for s in asm.scaffolds_sorted_by_name()]
                 asm.smart_sort_scaffolds()
-                smart = [(s.rank, s.name) for s in asm.scaffolds]
+                smart = [(s.rank if s.rank is not None else -1, s.name) for s in asm.scaffolds]
                 kn = [key(n) for n in by_name]
                 ks = [(r, key(n)) for r, n in smart]
             except Exception as e:  # noqa: BLE001
@@ -167,7 +168,7 @@ class C20(Check):
                 again = [s.name for s in asm.scaffolds_sorted_by_name()]
                 ka = [key(n) for n in again]
                 asm.smart_sort_scaffolds()
-                again2 = [(s.rank, key(s.name)) for s in asm.scaffolds]
+                again2 = [(s.rank if s.rank is not None else -1, key(s.name)) for s in asm.scaffolds]
             except Exception as e:  # noqa: BLE001
                 ctx.violation(f"sort-raises:{type(e).__name__}", case, f"re-sorting after rename: {e!r}")
                 return
@@ -245,7 +246,7 @@ class C20(Check):
         elif kind == "rank":
             names = ["SUPER_2", "SUPER_10", "X", "scaffold_3", "A"]
             for sub in itertools.combinations(names, 3):
-                for ranks in itertools.product((0, 1, 2, 3, 4), repeat=3):
+                for ranks in itertools.product(("D", 0, 1, 2, 3, 4), repeat=3):
                     self.case_perm(sub, ranks, ctx)
             # rank beats name: a rank-1 scaffold always precedes a rank-2/3 one
             for a, b in itertools.permutations(POOL, 2):
